@@ -112,4 +112,17 @@ Section Dev.
   Definition root_layers (qrez dz : T) : Z := truncZ (pot_root_depth qrez / dz).
   (* cumulative root share down to the lower boundary of layer i (1-based), [e] = math.Exp(-qrez*(i*10)) *)
   Definition root_cum (e : T) : T := (one - e) * ofZ 100.
+  (* ------------------------------------------------------------------ *)
+  (* crop coefficient and BBCH code from the development progress (crop.go:138-139 before emergence, 293-307 in the growth block) *)
+  Definition relint_of (sum tsum : T) : T := let r := sum / tsum in if gtb r one then one else r.
+
+  (* before emergence (stage 1, growth block not reached): no clamp, the product is divided last *)
+  Definition fkc_pre (kcini kc0 sum0 tsum0 : T) : T := kcini + (kc0 - kcini) * sum0 / tsum0.
+  Definition bbch_pre (end0 sum0 tsum0 : T) : Z := truncZ (end0 * sum0 / tsum0).
+
+  (* in the growth block: stage 1 interpolates from the bare-soil value, later stages from the previous stage's value *)
+  Definition fkc_of (first_stage : bool) (kcini kc_prev kc_k relint : T) : T :=
+    if first_stage then kcini + (kc_k - kcini) * relint else kc_prev + (kc_k - kc_prev) * relint.
+  Definition bbch_of (first_stage : bool) (end_prev end_k relint : T) : Z :=
+    if first_stage then truncZ (end_k * relint) else truncZ (end_prev + (end_k - end_prev) * relint).
 End Dev.
